@@ -9,6 +9,7 @@ import (
 	"go/types"
 	"sort"
 	"strings"
+	"time"
 )
 
 type evalOut struct {
@@ -129,6 +130,7 @@ var grammarCorpus = []string{
 	"%p1%p2%A%d", "%p1%p2%O%d", "%'a'%c", "%{65}%c", "%p1%Pa%ga%d", "%p1%PA%gA%d",
 	"%?%p1%tA%;", "%?%p1%tA%eB%;", "%?%p1%tA%e%p2%tB%eC%;", "%?%p1%t%?%p2%tA%eB%;%eC%;", "%?%p1%tX%?%p2%tA%;Y%eC%;Z",
 	"%p1%2d", "%p1%02d", "%p1%x", "%p1%:-3d|",
+	"%p1%#x", "%p1% d", "%p1%#o", "%p1%:+d", "%p1%:#5x|", "%p1%3.2d|",
 }
 
 func c07Programs(run *PropRun) {
@@ -517,7 +519,7 @@ func refStrip(s string) (out string, pads []string) {
 	return out, pads
 }
 
-var tputsCorpus = []string{"", "abc", "a$<2>b", "a$<10/>b$<1.5*>c", "$<5>", "x$<", "x$<12", "a$<2>b$<3", "$$<2>", "a$>b", "a$<>b", "x$<abc>y", "x$<1.>y", "x$<.5>y", "x$<1a>y", "a$<2*/>b", "a$<2/*>b", "a$<2**>b", "p$<2>q$<x>r$<3>s", "<$<1>>"}
+var tputsCorpus = []string{"", "abc", "a$<2>b", "a$<10/>b$<1.5*>c", "$<5>", "x$<", "x$<12", "a$<2>b$<3", "$$<2>", "a$>b", "a$<>b", "x$<abc>y", "x$<1.>y", "x$<.5>y", "x$<1a>y", "a$<2*/>b", "a$<2/*>b", "a$<2**>b", "p$<2>q$<x>r$<3>s", "<$<1>>", "$<a$<5>b", "$<$<10*/>", "$<1$<2>>", "a$<b$<3>c$<4>", "$<1$<", "$<$<$<7>", "$<1.$<2.5>>"}
 
 func c15TPuts(run *PropRun) {
 	e := run.Eng
@@ -619,6 +621,7 @@ func c15TPuts(run *PropRun) {
 	if b.String() != %q { fail("TPuts(%%q) wrote %%q, want %%q", %q, b.String(), %q); return }`, pc, j.s, want, j.s, want))
 		}
 	}
+	c15TPutsEnum(run)
 	run.Groups = append(run.Groups, groupObligations(c.Obs)...)
 	c.Obs = nil
 	run.Extra["tputs_strings_from_database"] = len(jobs) - len(tputsCorpus)
@@ -755,4 +758,96 @@ func (t *c09Tty) WindowSize() (WindowSize, error) { return WindowSize{Width: 80,
 	for k := range c.Assumed {
 		run.Assumed[k] = true
 	}
+}
+
+// c15TPutsEnum: BOUNDED stand-in for "all strings over an alphabet containing $ < > . digits * / and ordinary bytes":
+// the real (*Terminfo).TPuts is run natively on EVERY string over the alphabet {$ < > . 5 * / a} up to a stated
+// length and compared with the property's definition (refStrip, ported verbatim into the test).  Exhaustive up to the
+// bound, not a proof; the unbounded part of C15's TPuts clause stays with the per-string evaluations above.
+func c15TPutsEnum(run *PropRun) {
+	maxLen := 6
+	if run.Tier == "thorough" {
+		maxLen = 8
+	}
+	src := replayTest("terminfo", []string{"bytes"}, fmt.Sprintf(`
+	alphabet := []byte("$<>.5*/a")
+	maxLen := %d
+	ti := &Terminfo{}
+	buf := make([]byte, 0, maxLen)
+	var out bytes.Buffer
+	n := 0
+	bad := ""
+	var rec func()
+	rec = func() {
+		if bad != "" { return }
+		out.Reset()
+		ti.TPuts(&out, string(buf))
+		n++
+		if want := verifRefStrip(string(buf)); out.String() != want {
+			bad = fmt.Sprintf("TPuts(%%q) wrote %%q, the definition gives %%q", string(buf), out.String(), want)
+			return
+		}
+		if len(buf) == maxLen { return }
+		for _, ch := range alphabet {
+			buf = append(buf, ch)
+			rec()
+			buf = buf[:len(buf)-1]
+		}
+	}
+	rec()
+	if bad != "" { fmt.Println("TPUTSENUM FAIL " + bad); fail("%%s", bad); return }
+	fmt.Printf("TPUTSENUM OK %%d\n", n)`, maxLen)) + `
+func verifRefStrip(s string) string {
+	out := ""
+	i := 0
+	for i < len(s) {
+		if s[i] == '$' && i+1 < len(s) && s[i+1] == '<' {
+			j := i + 2
+			k := j
+			for k < len(s) && s[k] >= '0' && s[k] <= '9' {
+				k++
+			}
+			ok := k > j
+			if ok && k < len(s) && s[k] == '.' {
+				m := k + 1
+				for m < len(s) && s[m] >= '0' && s[m] <= '9' {
+					m++
+				}
+				ok = m > k+1
+				k = m
+			}
+			for ok && k < len(s) && (s[k] == '*' || s[k] == '/') {
+				k++
+			}
+			if ok && k < len(s) && s[k] == '>' {
+				i = k + 1
+				continue
+			}
+		}
+		out += string(s[i])
+		i++
+	}
+	return out
+}
+`
+	out, err := runOverlayTest(run.Eng.Repo, run.Eng.Repo+"/terminfo", src, 240*time.Second, nil)
+	ok, detail := false, ""
+	for _, ln := range strings.Split(out, "\n") {
+		if strings.HasPrefix(ln, "TPUTSENUM OK ") {
+			ok = true
+			detail = strings.TrimPrefix(ln, "TPUTSENUM OK ") + " strings"
+		}
+		if strings.HasPrefix(ln, "TPUTSENUM FAIL ") {
+			detail = strings.TrimPrefix(ln, "TPUTSENUM FAIL ")
+		}
+	}
+	if !ok && detail == "" {
+		run.Errors = append(run.Errors, fmt.Sprintf("tputs enumeration did not run: %v %s", err, tail(out, 400)))
+		return
+	}
+	g := run.AddObligation("tputs-enum", "table-bounded", BoolT(ok),
+		fmt.Sprintf("the real TPuts agrees with the definition on every string over {$ < > . 5 * / a} up to length %d (native, exhaustive up to the bound): %s", maxLen, detail))
+	g.ReplayDir = run.Eng.Repo + "/terminfo"
+	g.ReplayGo = src
+	run.Extra["tputs_enumeration_max_len_bounded"] = maxLen
 }
